@@ -383,6 +383,16 @@ impl RefM for RefConv {
 }
 
 /// rounding term of a recurrence step: exactly zero when everything involved is exactly zero
+/// rounding term k * mags of a recurrence step: exactly zero only when the magnitudes involved are exactly zero
+/// (a product that underflows still leaves an absolute error of the size of the smallest normal number)
+fn tk2(k: f64, mags: f64) -> f64 {
+	if mags == 0.0 {
+		0.0
+	} else {
+		k * mags + crate::ap::TINY
+	}
+}
+
 fn tk(x: f64) -> f64 {
 	if x == 0.0 {
 		0.0
@@ -410,13 +420,13 @@ impl RefM for RefEma {
 		// the update y + a (x - y) rounds at the magnitude of x, of the old y and of the new y
 		let o0 = self.s[0].abs();
 		self.s[0] += a * (x - self.s[0]);
-		self.e[0] = (1.0 - a) * self.e[0] + tk(k * (x.abs() + o0 + self.s[0].abs()));
+		self.e[0] = (1.0 - a) * self.e[0] + tk2(k, x.abs() + o0 + self.s[0].abs());
 		let o1 = self.s[1].abs();
 		self.s[1] += a * (self.s[0] - self.s[1]);
-		self.e[1] = (1.0 - a) * self.e[1] + a * self.e[0] + tk(k * (self.s[0].abs() + o1 + self.s[1].abs()));
+		self.e[1] = (1.0 - a) * self.e[1] + a * self.e[0] + tk2(k, self.s[0].abs() + o1 + self.s[1].abs());
 		let o2 = self.s[2].abs();
 		self.s[2] += a * (self.s[1] - self.s[2]);
-		self.e[2] = (1.0 - a) * self.e[2] + a * self.e[1] + tk(k * (self.s[1].abs() + o2 + self.s[2].abs()));
+		self.e[2] = (1.0 - a) * self.e[2] + a * self.e[1] + tk2(k, self.s[1].abs() + o2 + self.s[2].abs());
 		let (e, ee, eee) = (self.s[0], self.s[1], self.s[2]);
 		let (r1, r2, r3) = (self.e[0], self.e[1], self.e[2]);
 		let (v, rad) = match self.kind {
@@ -450,10 +460,10 @@ impl RefM for RefTsi {
 		let stage = |s: &mut [f64; 2], e: &mut [f64; 2], input: f64, al: f64, ash: f64| {
 			let o0 = s[0].abs();
 			s[0] += al * (input - s[0]);
-			e[0] = (1.0 - al) * e[0] + al * e0 + tk(k * (input.abs() + o0 + s[0].abs()));
+			e[0] = (1.0 - al) * e[0] + al * e0 + tk2(k, input.abs() + o0 + s[0].abs());
 			let o1 = s[1].abs();
 			s[1] += ash * (s[0] - s[1]);
-			e[1] = (1.0 - ash) * e[1] + ash * e[0] + tk(k * (s[0].abs() + o1 + s[1].abs()));
+			e[1] = (1.0 - ash) * e[1] + ash * e[0] + tk2(k, s[0].abs() + o1 + s[1].abs());
 		};
 		stage(&mut self.m, &mut self.me, mom, self.a_long, self.a_short);
 		stage(&mut self.a, &mut self.ae, mom.abs(), self.a_long, self.a_short);
